@@ -12,7 +12,7 @@ TLog == ndJsonDeserialize("trace.ndjson")
 
 \* F is a set of names of falsified predicates; ctx any JSON-able context
 Report(line, F, ctx) ==
-    F = {} \/ PrintT(<<"@@FAIL@@", ToJson([line |-> line, what |-> F, ctx |-> ctx])>>)
+    IF F = {} THEN TRUE ELSE PrintT(<<"@@FAIL@@", ToJson([line |-> line, what |-> F, ctx |-> ctx])>>)
 
 NameIf(cond, name) == IF cond THEN {} ELSE {name}
 
